@@ -1,5 +1,5 @@
 From Coq Require Import Extraction ExtrOcamlBasic ZArith NArith.
-From Elk Require Import Model.C21_RegexSyntax Model.C21_RegexSem.
+From Elk Require Import Model.C21_RegexSyntax Model.C21_RegexSem Model.C21_RegexExt Model.C21_Compose.
 Extraction Language OCaml.
 Extraction Blacklist List String Nat.
 
@@ -7,4 +7,5 @@ Separate Extraction
   transpile transpile_text tr pr2 has_err
   matches_elk matches_re2
   sets_x mentions_x has_hash strip_ws set_x
+  cden cmatches cflags cleaves strip_x comment_free erase_x
   Z.of_nat Z.to_nat Z.add Z.mul Z.opp Z.sub Z.compare Z.eqb Z.ltb Z.leb Pos.to_nat N.of_nat N.to_nat.
